@@ -96,6 +96,8 @@ func computeRenames(p *Prog) {
 	for _, pf := range tab {
 		pinned[pf.Name] = pf
 	}
+	pinnedByName = pinned
+	recordedOrderMemo = map[*ssa.Function][]int{}
 	current := map[string]*ssa.Function{}
 	for _, f := range namedFuncs(p) {
 		n := f.String()
@@ -615,9 +617,149 @@ func isPlainIdent(s string) bool {
 // recvDropped: recorded methods that are now plain functions without their (unused) receiver.
 var recvDropped = map[*ssa.Function]bool{}
 
+// pinnedByName: the recorded identities by recorded name.
+var pinnedByName = map[string]PinnedFunc{}
+var recordedOrderMemo = map[*ssa.Function][]int{}
+
+// recordedParamNames: the parameter names of a recorded function in order, the receiver (unnamed, "") first for a
+// method.
+func recordedParamNames(pf PinnedFunc) []string {
+	var out []string
+	if pf.Recv != "" {
+		out = append(out, "")
+	}
+	sig := pf.Sig
+	if !strings.HasPrefix(sig, "func(") {
+		return out
+	}
+	depth, start := 0, len("func(")
+	end := -1
+	for i := len("func(") - 1; i < len(sig); i++ {
+		switch sig[i] {
+		case '(', '[', '{':
+			depth++
+		case ')', ']', '}':
+			depth--
+			if depth == 0 && end < 0 {
+				end = i
+			}
+		}
+		if end >= 0 {
+			break
+		}
+	}
+	if end < 0 {
+		return out
+	}
+	body := sig[start:end]
+	if strings.TrimSpace(body) == "" {
+		return out
+	}
+	depth = 0
+	last := 0
+	var parts []string
+	for i := 0; i < len(body); i++ {
+		switch body[i] {
+		case '(', '[', '{':
+			depth++
+		case ')', ']', '}':
+			depth--
+		case ',':
+			if depth == 0 {
+				parts = append(parts, body[last:i])
+				last = i + 1
+			}
+		}
+	}
+	parts = append(parts, body[last:])
+	for _, p := range parts {
+		p = strings.TrimSpace(p)
+		name := ""
+		if j := strings.IndexByte(p, ' '); j > 0 && isPlainIdent(p[:j]) && p[:j] != "func" && p[:j] != "chan" && p[:j] != "map" && p[:j] != "interface" && p[:j] != "struct" {
+			name = p[:j]
+		}
+		out = append(out, name)
+	}
+	return out
+}
+
+// recordedOrder: for a function that stands for a recorded one, the index of the current parameter for each
+// recorded parameter position (-1 when there is none): parameters are matched by name, the receiver by its type,
+// so that an inserted context parameter, a dropped unused receiver or a method turned function do not shift what
+// the rules look at. nil when the function is not recorded or nothing moved.
+func recordedOrder(fn *ssa.Function) []int {
+	if fn == nil {
+		return nil
+	}
+	if o, ok := recordedOrderMemo[fn]; ok {
+		return o
+	}
+	recordedOrderMemo[fn] = nil
+	pf, ok := pinnedByName[recordedString(fn.String())]
+	if !ok {
+		return nil
+	}
+	names := recordedParamNames(pf)
+	order := make([]int, len(names))
+	identity := len(names) == len(fn.Params)
+	q := func(p *types.Package) string { return p.Path() }
+	for i, n := range names {
+		order[i] = -1
+		if n == "" && i == 0 && pf.Recv != "" {
+			// the receiver: still the receiver, or the first parameter of the receiver's type
+			if fn.Signature.Recv() != nil && len(fn.Params) > 0 {
+				order[i] = 0
+			} else {
+				for j, p := range fn.Params {
+					if recordedTypes(types.TypeString(p.Type(), q)) == pf.Recv {
+						order[i] = j
+						break
+					}
+				}
+			}
+		} else if n != "" {
+			for j, p := range fn.Params {
+				if p.Name() == n {
+					order[i] = j
+				}
+			}
+		}
+		if order[i] < 0 && n == "" && !(i == 0 && pf.Recv != "") {
+			// unnamed recorded parameter: positional
+			if i < len(fn.Params) {
+				order[i] = i
+			}
+		}
+		if order[i] != i {
+			identity = false
+		}
+	}
+	if identity {
+		return nil
+	}
+	// names that are all gone (parameters renamed wholesale): fall back to positions
+	found := 0
+	for _, j := range order {
+		if j >= 0 {
+			found++
+		}
+	}
+	if found == 0 {
+		return nil
+	}
+	recordedOrderMemo[fn] = order
+	return order
+}
+
 // ParamAt: the parameter of fn at the position it had in the recorded function (a receiver that was dropped when a
 // method became a function shifts the positions by one); nil when there is none.
 func ParamAt(fn *ssa.Function, recordedIdx int) *ssa.Parameter {
+	if o := recordedOrder(fn); o != nil {
+		if recordedIdx < 0 || recordedIdx >= len(o) || o[recordedIdx] < 0 {
+			return nil
+		}
+		return fn.Params[o[recordedIdx]]
+	}
 	i := recordedIdx
 	if recvDropped[fn] {
 		i--
